@@ -76,6 +76,8 @@ def check_text(text: str, surrogate: bool = False):
         return out, obs
     except FSE as e:
         obs["outcome:FilterSyntaxError"] = 1
+        if not isinstance(e, ValueError):
+            out.append(("filter-syntax-error-is-not-a-ValueError", f"{type(e).__name__} with bases {[b.__name__ for b in type(e).__mro__[1:4]]}"))
         obs["site:" + re.sub(r"[^A-Za-z ]+", "", str(e))[:30].strip()] = 1
         try:
             # offsets count octets of e.filter, which must be the input of this call (up to the surrounding blanks the
